@@ -240,6 +240,31 @@ func runBatchExtra(raw json.RawMessage, seed int64) (res Result) {
 			}
 		}
 	}
+	// ONE key at every index, and the only invalid entries are a cancelling pair s+d / s-d at adjacent (and at distant) indices
+	{
+		sa := w.Scalar("same-key")
+		pa := w.SK(sa).PublicKey()
+		good := H.Mul(sa)
+		d := w.D()
+		for _, n := range []int{2, 3, 4, 5, 8, 9, 17} {
+			for i := 0; i < n; i++ {
+				for _, j := range []int{i + 1, n - 1} {
+					if j <= i || j >= n {
+						continue
+					}
+					pks := make([]crypto.PublicKey, n)
+					sgs := make([]crypto.Signature, n)
+					want := make([]bool, n)
+					for x := 0; x < n; x++ {
+						pks[x], sgs[x], want[x] = pa, good.Compress(), true
+					}
+					sgs[i], sgs[j] = good.Add(d).Compress(), good.Add(d.Neg()).Compress()
+					want[i], want[j] = false, false
+					w.checkBatch(&res, fmt.Sprintf("n=%d one key everywhere, cancelling pair at (%d,%d) seed %d", n, i, j, seed), pks, sgs, want, 1)
+				}
+			}
+		}
+	}
 	// input errors: every returned boolean is false
 	pk := w.SK(w.Scalar("bk0")).PublicKey()
 	sig := crypto.Signature(H.Mul(w.Scalar("bk0")).Compress())
